@@ -152,8 +152,38 @@ def c11_violation(ks, n, bits=64):
     return None
 
 
+def c11_rows_violation(rows):
+    """from-fingerprints statements of C11 on a bit matrix: packed = unpacked, and each complementary
+    similarity equals the iSIM of the set with that row removed (1 if the rest is empty)"""
+    import bblean.similarity as S
+    A = np.array(rows, dtype=np.uint8)
+    nr, nf = A.shape
+    P = np.packbits(A, axis=1)
+    for nm, fn in [("jt_isim", S.jt_isim), ("jt_isim_diameter", S.jt_isim_diameter),
+                   ("jt_isim_radius", S.jt_isim_radius), ("jt_isim_radius_compl", S.jt_isim_radius_compl)]:
+        u, p = float(fn(A, input_is_packed=False)), float(fn(P, input_is_packed=True, n_features=nf))
+        if not (u == p or (u != u and p != p)):
+            return f"{nm}: packed {p!r} != unpacked {u!r}"
+    if nr >= 3:
+        cu = S.jt_compl_isim(A, input_is_packed=False)
+        ls_all = A.sum(axis=0, dtype=np.int64)
+        for k in range(nr):
+            rest = [int(v) for v in (ls_all - A[k])]
+            ex = Fraction(1) if sum(rest) == 0 else exact_isim(rest, nr - 1)
+            v = float(cu[k])
+            if v != v or ((nr - 1) * sum(rest) < 2 ** 52 and Fraction(v) != Fraction(float(ex))):
+                return (f"complementary similarity of row {k} is {v!r}, the iSIM of the set without that row "
+                        f"is {float(ex)!r}")
+    return None
+
+
 def search_c11(seed, tier, failures):
     from suite_isim import gen_cases
+    for kind, d in failures:
+        if isinstance(d, dict) and "rows" in d:
+            v = c11_rows_violation(d["rows"])
+            if v:
+                return {"rows": d["rows"], "violation": v}
     for kind, d in failures:
         if isinstance(d, dict) and "ks" in d:
             v = c11_violation(d["ks"], d["n"], d.get("dtype_bits", 64))
@@ -170,6 +200,8 @@ def replay_c11(payload):
     fi = payload.get("failing_input")
     if not fi:
         return True
+    if "rows" in fi:
+        return c11_rows_violation(fi["rows"]) is None
     return c11_violation(fi["ks"], fi["n"], fi.get("dtype_bits", 64)) is None
 
 
